@@ -115,8 +115,11 @@ Proof.
         try (split; [discriminate|intros; discriminate]); [|congruence].
       unfold ret. split; [discriminate|]. intros b t' E; injection E as _ <-. specialize (I2 _ _ eq_refl). lia.
     + destruct (c =? c_star).
-      * unfold with_fuel. destruct (block_progress (t_fuel t1) false t1 ltac:(unfold t_fuel; lia)) as [I1 I2].
-        destruct (skip_block_comment (t_fuel t1) false t1) as [[u t2]| | |] eqn:Es;
+      * destruct (t_read t1) as [[c0 t0]| | |] eqn:Er0; try (split; [discriminate|intros; discriminate]);
+          try (exfalso; exact (read_not_oof _ Er0)).
+        destruct (read_rem _ _ _ Er0) as [H0 _].
+        unfold with_fuel. destruct (block_progress (t_fuel t0) false t0 ltac:(unfold t_fuel; lia)) as [I1 I2].
+        destruct (skip_block_comment (t_fuel t0) false t0) as [[u t2]| | |] eqn:Es;
           try (split; [discriminate|intros; discriminate]); [|congruence].
         unfold ret. split; [discriminate|]. intros b t' E; injection E as _ <-. specialize (I2 _ _ eq_refl). lia.
       * unfold ret. split; [discriminate|]. intros b t' E; injection E as _ <-. exact H1.
@@ -204,4 +207,398 @@ Proof. induction l as [|a l IH]; cbn; [lia|]. destruct (p a); cbn; lia. Qed.
 Lemma fuel_linear t : (t_fuel t <= length (t_in t) + length (t_buf t) + 2)%nat.
 Proof.
   unfold t_fuel, t_rem. pose proof (filter_len (fun c => negb (c =? -1)%Z) (t_buf t)). lia.
+Qed.
+
+(* ---- no operation of the string / lob / container-skipping code runs out of fuel --------------------------------- *)
+(* [ni m t]: from [t], [m] does not run out of fuel and does not give characters back *)
+Definition ni {A} (m : M A) (t : tstate) : Prop :=
+  match m t with
+  | Ok (_, t') => (t_rem t' <= t_rem t)%nat
+  | OutOfFuel => False
+  | _ => True
+  end.
+Definition nonincr {A} (m : M A) : Prop := forall t, ni m t.
+
+Lemma ni_ret {A} (a : A) t : ni (ret a) t. Proof. unfold ni, ret. lia. Qed.
+Lemma ni_fail {A} t : ni (@fail A) t. Proof. exact I. Qed.
+Lemma ni_bind {A B} (m : M A) (k : A -> M B) t :
+  ni m t -> (forall a t1, m t = Ok (a, t1) -> ni (k a) t1) -> ni (mbind m k) t.
+Proof.
+  unfold ni, mbind. intros Hm Hk. destruct (m t) as [[a t1]| | |]; auto.
+  specialize (Hk a t1 eq_refl). destruct (k a t1) as [[b t2]| | |]; auto. lia.
+Qed.
+Lemma nonincr_bind {A B} (m : M A) (k : A -> M B) : nonincr m -> (forall a, nonincr (k a)) -> nonincr (mbind m k).
+Proof. intros Hm Hk t. apply ni_bind; [apply Hm|intros; apply Hk]. Qed.
+Lemma nonincr_read : nonincr t_read.
+Proof.
+  intros t. unfold ni. pose proof (read_not_oof t). destruct (t_read t) as [[c t1]| | |] eqn:E; auto.
+  apply (read_rem _ _ _ E).
+Qed.
+Lemma nonincr_peek : nonincr t_peek.
+Proof.
+  intros t. unfold ni. pose proof (peek_not_oof t). destruct (t_peek t) as [[c t1]| | |] eqn:E; auto.
+  apply (peek_rem _ _ _ E).
+Qed.
+(* reading a character that is not EOF leaves room for one more loop iteration *)
+Lemma ni_read_loop {A} (k : Z -> M A) fuel t :
+  (t_rem t < S fuel)%nat ->
+  (forall c t1, (t_rem t1 <= t_rem t)%nat -> (c <> -1 -> (t_rem t1 < fuel)%nat) -> ni (k c) t1) ->
+  ni (mbind t_read k) t.
+Proof.
+  intros Hf Hk. apply ni_bind; [apply nonincr_read|]. intros c t1 E.
+  destruct (read_rem _ _ _ E) as [H1 H2]. apply Hk; [exact H1|]. intros Hc. specialize (H2 Hc). lia.
+Qed.
+Lemma ni_weaken {A} (m : M A) t : ni m t -> ni m t. Proof. auto. Qed.
+Lemma nonincr_with_fuel {A} (g : nat -> M A) :
+  (forall f t, (t_rem t < f)%nat -> ni (g f) t) -> nonincr (with_fuel g).
+Proof. intros H t. unfold with_fuel. apply H. unfold t_fuel. lia. Qed.
+
+(* look-ahead gives back exactly what it took *)
+Lemma unread_all_rem : forall l t, (forall c, In c l -> c <> -1) ->
+  exists t', unread_all l t = Ok (tt, t') /\ t_rem t' = (t_rem t + length l)%nat.
+Proof.
+  induction l as [|c l IH]; intros t Hl; cbn [unread_all].
+  - exists t. split; [reflexivity|cbn; lia].
+  - unfold mbind. destruct (t_unread c t) as [[u t1]| | |] eqn:E; try discriminate E.
+    assert (R1 : t_rem t1 = S (t_rem t)).
+    { unfold t_unread in E. injection E as _ <-. rewrite rem_set_buf. unfold t_rem. cbn [filter].
+      assert (Hc : (c =? -1) = false) by (apply Z.eqb_neq, Hl; left; reflexivity). rewrite Hc. cbn. lia. }
+    destruct (IH t1 (fun c0 H => Hl c0 (or_intror H))) as [t' [E' R']]. exists t'. split; [exact E'|].
+    rewrite R', R1. cbn. lia.
+Qed.
+Lemma peekN_loop_rem : forall n acc t cs e t1,
+  (forall c, In c acc -> c <> -1) ->
+  peekN_loop n acc t = Ok ((cs, e), t1) ->
+  (forall c, In c cs -> c <> -1) /\ (t_rem t1 + length cs <= t_rem t + length acc)%nat.
+Proof.
+  induction n as [|n IH]; intros acc t cs e t1 Ha; cbn [peekN_loop].
+  - unfold ret. intros E; injection E as <- <- <-. split; [intros c H; apply Ha; rewrite in_rev; exact H|rewrite rev_length; lia].
+  - unfold mbind. destruct (t_read t) as [[c t0]| | |] eqn:Er; try discriminate.
+    destruct (read_rem _ _ _ Er) as [R1 R2].
+    destruct (c =? -1) eqn:C.
+    + unfold ret. intros E; injection E as <- <- <-. split; [intros c0 H; apply Ha; rewrite in_rev; exact H|rewrite rev_length; lia].
+    + apply Z.eqb_neq in C. specialize (R2 C). intros E. apply IH in E.
+      * destruct E as [E1 E2]. split; [exact E1|]. cbn [length] in E2. lia.
+      * intros c0 [<-|H]; [exact C|apply Ha; exact H].
+Qed.
+Lemma nonincr_peekN n : nonincr (t_peekN n).
+Proof.
+  intros t. unfold ni, t_peekN, mbind.
+  destruct (peekN_loop n [] t) as [[[cs e] t1]| | |] eqn:E1.
+  - apply peekN_loop_rem in E1; [|intros c []]. destruct E1 as [Hcs R1]. cbn [length] in R1.
+    set (t2 := if e then set_buf t1 (-1 :: t_buf t1) else t1).
+    assert (E2 : (if e then t_unread (-1) else ret tt) t1 = Ok (tt, t2)) by (destruct e; reflexivity).
+    assert (R2 : t_rem t2 = t_rem t1) by (subst t2; destruct e; reflexivity).
+    rewrite E2. destruct (unread_all_rem (rev cs) t2) as [t3 [E3 R3]].
+    { intros c H. apply Hcs. rewrite in_rev. exact H. }
+    rewrite E3. unfold ret. rewrite R3, R2, rev_length. lia.
+  - exact I.
+  - exact I.
+  - (* the look-ahead loop is structural: it cannot run out of fuel *)
+    exfalso. revert E1. generalize (@nil Z). generalize t. induction n as [|n IH]; intros t0 acc; cbn [peekN_loop]; [discriminate|].
+    unfold mbind. pose proof (read_not_oof t0). destruct (t_read t0) as [[c t4]| | |]; try discriminate; try congruence.
+    destruct (c =? -1); [discriminate|apply IH].
+Qed.
+Lemma nonincr_skipN : forall n, nonincr (t_skipN n).
+Proof.
+  induction n as [|n IH]; intros t; cbn [t_skipN]; [apply ni_ret|].
+  apply ni_bind; [apply nonincr_read|]. intros c t1 _. destruct (c =? -1); [apply ni_ret|apply IH].
+Qed.
+Lemma nonincr_is_triple_quote : nonincr t_is_triple_quote.
+Proof.
+  intros t. unfold t_is_triple_quote. apply ni_bind; [apply nonincr_peekN|]. intros [cs e] t1 _.
+  destruct e; [apply ni_ret|]. destruct ((znth cs 0 =? c_quote) && (znth cs 1 =? c_quote)); [|apply ni_ret].
+  apply ni_bind; [apply nonincr_skipN|]. intros; apply ni_ret.
+Qed.
+Lemma nonincr_expect f : nonincr (t_expect f).
+Proof. intros t. unfold t_expect. apply ni_bind; [apply nonincr_read|]. intros c t1 _. destruct (f c); [apply ni_ret|exact I]. Qed.
+
+(* whitespace: the character handed back to the caller has been consumed *)
+Definition wt (c : Z) : nat := if c =? -1 then O else 1%nat.
+Lemma whitespace_hand : forall fuel h sk t,
+  (t_rem t < fuel)%nat ->
+  match skip_whitespace_with fuel h sk t with
+  | Ok ((c, _), t') => (t_rem t' + wt c <= t_rem t)%nat
+  | OutOfFuel => False
+  | _ => True
+  end.
+Proof.
+  induction fuel as [|f IH]; intros h sk t Hf; [lia|].
+  cbn [skip_whitespace_with]. unfold mbind.
+  destruct (t_read t) as [[c t1]| | |] eqn:Er; try exact I; try (exfalso; exact (read_not_oof _ Er)).
+  destruct (read_rem _ _ _ Er) as [H1 H2].
+  destruct (is_whitespace c) eqn:W.
+  - specialize (H2 (ws_not_eof c W)). specialize (IH h true t1 ltac:(lia)).
+    destruct (skip_whitespace_with f h true t1) as [[[c' s'] t']| | |]; auto. lia.
+  - destruct (c =? c_slash) eqn:S.
+    + apply Z.eqb_eq in S. assert (Hc : c <> -1) by (rewrite S; discriminate). specialize (H2 Hc).
+      destruct (handler_progress h t1) as [G1 G2].
+      destruct (run_handler h t1) as [[b t2]| | |] eqn:Eh; try exact I; [|congruence].
+      specialize (G2 _ _ eq_refl). destruct b.
+      * specialize (IH h true t2 ltac:(lia)).
+        destruct (skip_whitespace_with f h true t2) as [[[c' s'] t']| | |]; auto. lia.
+      * unfold ret. cbn. lia.
+    + unfold ret. unfold wt. destruct (c =? -1) eqn:C; [lia|]. apply Z.eqb_neq in C. specialize (H2 C). lia.
+Qed.
+Lemma nonincr_skip_whitespace_h h : nonincr (t_skip_whitespace_h h).
+Proof.
+  intros t. unfold ni, t_skip_whitespace_h, with_fuel.
+  pose proof (whitespace_hand (t_fuel t) h false t ltac:(unfold t_fuel; lia)) as H.
+  destruct (skip_whitespace_with (t_fuel t) h false t) as [[[c s'] t']| | |]; auto. lia.
+Qed.
+Lemma unread_wt c t : exists t', t_unread c t = Ok (tt, t') /\ t_rem t' = (t_rem t + wt c)%nat.
+Proof.
+  exists (set_buf t (c :: t_buf t)). split; [reflexivity|]. rewrite rem_set_buf. unfold t_rem, wt. cbn [filter].
+  destruct (c =? -1); cbn; lia.
+Qed.
+Lemma nonincr_end_of_long_string h : nonincr (t_skip_end_of_long_string h).
+Proof.
+  intros t. unfold t_skip_end_of_long_string. apply ni_bind; [apply nonincr_peekN|]. intros [cs e] t1 _.
+  match goal with |- ni (if ?b then _ else _) _ => destruct b end; [apply ni_ret|].
+  apply ni_bind; [apply nonincr_skipN|]. intros u t2 _.
+  unfold ni, mbind at 1, t_skip_whitespace_h, with_fuel.
+  pose proof (whitespace_hand (t_fuel t2) h false t2 ltac:(unfold t_fuel; lia)) as H.
+  destruct (skip_whitespace_with (t_fuel t2) h false t2) as [[[c s'] t3]| | |]; auto.
+  unfold mbind at 1.
+  assert (Hq : ni (if c =? c_quote then t_is_triple_quote else ret false) t3)
+    by (destruct (c =? c_quote); [apply nonincr_is_triple_quote|apply ni_ret]).
+  unfold ni in Hq. destruct ((if c =? c_quote then t_is_triple_quote else ret false) t3) as [[again t4]| | |] eqn:Eq; auto.
+  destruct again; [unfold ret; lia|].
+  (* not another segment: then nothing was consumed by the test, and c is given back *)
+  unfold mbind. destruct (unread_wt c t4) as [t5 [E5 R5]]. rewrite E5. unfold ret. rewrite R5. lia.
+Qed.
+
+Lemma nonincr_hex_escape : forall n v, nonincr (read_hex_escape_seq n v).
+Proof.
+  induction n as [|n IH]; intros v t; cbn [read_hex_escape_seq]; [apply ni_ret|].
+  apply ni_bind; [apply nonincr_read|]. intros c t1 _. destruct (from_hex c); [apply IH|exact I].
+Qed.
+Lemma nonincr_escaped_char k : nonincr (read_escaped_char k).
+Proof.
+  intros t. unfold read_escaped_char. apply ni_bind; [apply nonincr_read|]. intros c t1 _.
+  destruct (simple_escape c); [apply ni_ret|].
+  repeat match goal with |- ni (if ?b then _ else _) _ => destruct b end; try exact I; apply nonincr_hex_escape.
+Qed.
+Lemma nonincr_backslash k : nonincr (process_backslash k).
+Proof.
+  intros t. unfold process_backslash. apply ni_bind; [apply nonincr_peek|]. intros c t1 _.
+  destruct (c =? c_nl).
+  - apply ni_bind; [apply nonincr_read|]. intros; apply ni_ret.
+  - apply ni_bind; [apply nonincr_escaped_char|]. intros; apply ni_ret.
+Qed.
+
+Lemma string_loop_progress : forall fuel w t, (t_rem t < fuel)%nat -> ni (read_string_loop fuel w) t.
+Proof.
+  induction fuel as [|f IH]; intros w t Hf; [lia|]. cbn [read_string_loop].
+  apply (ni_read_loop _ f); [exact Hf|]. intros c t1 R1 R2.
+  destruct (Z.eq_dec c (-1)) as [->|Hc]; [exact I|]. specialize (R2 Hc).
+  match goal with |- ni (if ?b then _ else _) _ => destruct b end; [exact I|].
+  destruct (c =? c_dquote); [apply ni_ret|].
+  destruct (c =? c_bslash); [|apply IH; exact R2].
+  apply ni_bind; [apply nonincr_backslash|]. intros bs t2 E2.
+  pose proof (nonincr_backslash false t1) as H. unfold ni in H. rewrite E2 in H. apply IH. lia.
+Qed.
+Lemma clob_loop_progress : forall fuel w t, (t_rem t < fuel)%nat -> ni (read_clob_loop fuel w) t.
+Proof.
+  induction fuel as [|f IH]; intros w t Hf; [lia|]. cbn [read_clob_loop].
+  apply (ni_read_loop _ f); [exact Hf|]. intros c t1 R1 R2.
+  destruct (Z.eq_dec c (-1)) as [->|Hc]; [exact I|]. specialize (R2 Hc).
+  match goal with |- ni (if ?b then _ else _) _ => destruct b end; [exact I|].
+  destruct (c =? c_dquote); [apply ni_ret|].
+  destruct (c =? c_bslash); [|apply IH; exact R2].
+  apply ni_bind; [apply nonincr_backslash|]. intros bs t2 E2.
+  pose proof (nonincr_backslash true t1) as H. unfold ni in H. rewrite E2 in H. apply IH. lia.
+Qed.
+Lemma quoted_symbol_loop_progress : forall fuel w t, (t_rem t < fuel)%nat -> ni (read_quoted_symbol_loop fuel w) t.
+Proof.
+  induction fuel as [|f IH]; intros w t Hf; [lia|]. cbn [read_quoted_symbol_loop].
+  apply (ni_read_loop _ f); [exact Hf|]. intros c t1 R1 R2.
+  destruct (Z.eq_dec c (-1)) as [->|Hc]; [exact I|]. specialize (R2 Hc).
+  match goal with |- ni (if ?b then _ else _) _ => destruct b end; [exact I|].
+  destruct (c =? c_quote); [apply ni_ret|].
+  destruct (c =? c_bslash); [|apply IH; exact R2].
+  apply ni_bind; [apply nonincr_peek|]. intros c2 t2 E2.
+  pose proof (nonincr_peek t1) as H. unfold ni in H. rewrite E2 in H.
+  destruct (c2 =? c_nl).
+  - apply ni_bind; [apply nonincr_read|]. intros c3 t3 E3.
+    pose proof (nonincr_read t2) as H3. unfold ni in H3. rewrite E3 in H3. apply IH. lia.
+  - apply ni_bind; [apply nonincr_escaped_char|]. intros r t3 E3.
+    pose proof (nonincr_escaped_char false t2) as H3. unfold ni in H3. rewrite E3 in H3. apply IH. lia.
+Qed.
+Lemma long_string_loop_progress : forall fuel w t, (t_rem t < fuel)%nat -> ni (read_long_string_loop fuel w) t.
+Proof.
+  induction fuel as [|f IH]; intros w t Hf; [lia|]. cbn [read_long_string_loop].
+  apply (ni_read_loop _ f); [exact Hf|]. intros c t1 R1 R2.
+  destruct (Z.eq_dec c (-1)) as [->|Hc]; [exact I|]. specialize (R2 Hc).
+  match goal with |- ni (if ?b then _ else _) _ => destruct b end; [exact I|].
+  destruct (c =? c_quote).
+  { apply ni_bind; [apply nonincr_end_of_long_string|]. intros [e cns] t2 E2.
+    pose proof (nonincr_end_of_long_string HSkipComments t1) as H. unfold ni in H. rewrite E2 in H.
+    destruct e; [apply ni_ret|]. destruct (negb cns); apply IH; lia. }
+  destruct (c =? c_bslash); [|apply IH; exact R2].
+  apply ni_bind; [apply nonincr_backslash|]. intros bs t2 E2.
+  pose proof (nonincr_backslash false t1) as H. unfold ni in H. rewrite E2 in H. apply IH. lia.
+Qed.
+Lemma long_clob_loop_progress : forall fuel w t, (t_rem t < fuel)%nat -> ni (read_long_clob_loop fuel w) t.
+Proof.
+  induction fuel as [|f IH]; intros w t Hf; [lia|]. cbn [read_long_clob_loop].
+  apply (ni_read_loop _ f); [exact Hf|]. intros c t1 R1 R2.
+  destruct (Z.eq_dec c (-1)) as [->|Hc]; [exact I|]. specialize (R2 Hc).
+  match goal with |- ni (if ?b then _ else _) _ => destruct b end; [exact I|].
+  destruct (c =? c_quote).
+  { apply ni_bind; [apply nonincr_end_of_long_string|]. intros [e cns] t2 E2.
+    pose proof (nonincr_end_of_long_string HEnsureNoComments t1) as H. unfold ni in H. rewrite E2 in H.
+    destruct e; [apply ni_ret|]. destruct (negb cns); apply IH; lia. }
+  destruct (c =? c_bslash); [|apply IH; exact R2].
+  apply ni_bind; [apply nonincr_backslash|]. intros bs t2 E2.
+  pose proof (nonincr_backslash true t1) as H. unfold ni in H. rewrite E2 in H. apply IH. lia.
+Qed.
+
+(* skipper.go *)
+Lemma skip_quoted_progress : forall fuel q t, (t_rem t < fuel)%nat -> ni (skip_quoted_helper fuel q) t.
+Proof.
+  induction fuel as [|f IH]; intros q t Hf; [lia|]. cbn [skip_quoted_helper].
+  apply (ni_read_loop _ f); [exact Hf|]. intros c t1 R1 R2.
+  destruct (Z.eq_dec c (-1)) as [->|Hc]; [exact I|]. specialize (R2 Hc).
+  match goal with |- ni (if ?b then _ else _) _ => destruct b end; [exact I|].
+  destruct (c =? q); [apply ni_ret|].
+  destruct (c =? c_bslash); [|apply IH; exact R2].
+  apply ni_bind; [apply nonincr_read|]. intros c3 t3 E3.
+  pose proof (nonincr_read t1) as H3. unfold ni in H3. rewrite E3 in H3. apply IH. lia.
+Qed.
+Lemma nonincr_skip_string_helper : nonincr skip_string_helper.
+Proof. apply nonincr_with_fuel. intros; apply skip_quoted_progress; assumption. Qed.
+Lemma nonincr_skip_symbol_quoted_helper : nonincr skip_symbol_quoted_helper.
+Proof. apply nonincr_with_fuel. intros; apply skip_quoted_progress; assumption. Qed.
+Lemma skip_long_string_progress : forall fuel h t, (t_rem t < fuel)%nat -> ni (skip_long_string_loop fuel h) t.
+Proof.
+  induction fuel as [|f IH]; intros h t Hf; [lia|]. cbn [skip_long_string_loop].
+  apply (ni_read_loop _ f); [exact Hf|]. intros c t1 R1 R2.
+  destruct (Z.eq_dec c (-1)) as [->|Hc]; [exact I|]. specialize (R2 Hc).
+  destruct (c =? -1); [exact I|].
+  destruct (c =? c_quote).
+  { apply ni_bind; [apply nonincr_end_of_long_string|]. intros [e cns] t2 E2.
+    pose proof (nonincr_end_of_long_string h t1) as H. unfold ni in H. rewrite E2 in H.
+    destruct e; [apply ni_ret|apply IH; lia]. }
+  destruct (c =? c_bslash); [|apply IH; exact R2].
+  apply ni_bind; [apply nonincr_read|]. intros c3 t3 E3.
+  pose proof (nonincr_read t1) as H3. unfold ni in H3. rewrite E3 in H3. apply IH. lia.
+Qed.
+Lemma nonincr_skip_long_string_helper h : nonincr (skip_long_string_helper h).
+Proof. apply nonincr_with_fuel. intros; apply skip_long_string_progress; assumption. Qed.
+
+Lemma lob_whitespace_hand t :
+  match t_skip_lob_whitespace t with
+  | Ok ((c, _), t') => (t_rem t' + wt c <= t_rem t)%nat
+  | OutOfFuel => False
+  | _ => True
+  end.
+Proof. unfold t_skip_lob_whitespace, with_fuel. apply whitespace_hand. unfold t_fuel. lia. Qed.
+Lemma skip_whitespace_hand t :
+  match t_skip_whitespace t with
+  | Ok ((c, _), t') => (t_rem t' + wt c <= t_rem t)%nat
+  | OutOfFuel => False
+  | _ => True
+  end.
+Proof. unfold t_skip_whitespace, with_fuel. apply whitespace_hand. unfold t_fuel. lia. Qed.
+
+Lemma skip_blob_loop_progress : forall fuel c t, (t_rem t < fuel)%nat -> ni (skip_blob_loop fuel c) t.
+Proof.
+  induction fuel as [|f IH]; intros c t Hf; [lia|]. cbn [skip_blob_loop].
+  destruct (c =? c_rbrace); [apply ni_ret|].
+  unfold ni, mbind. pose proof (lob_whitespace_hand t) as H.
+  destruct (t_skip_lob_whitespace t) as [[[c2 s2] t1]| | |]; auto.
+  destruct (c2 =? -1) eqn:C; [exact I|].
+  assert (W : wt c2 = 1%nat) by (unfold wt; rewrite C; reflexivity).
+  specialize (IH c2 t1 ltac:(lia)). unfold ni in IH.
+  destruct (skip_blob_loop f c2 t1) as [[u t2]| | |]; auto. lia.
+Qed.
+Lemma nonincr_skip_blob_helper : nonincr skip_blob_helper.
+Proof.
+  intros t. unfold skip_blob_helper. unfold ni, mbind at 1. pose proof (lob_whitespace_hand t) as H.
+  destruct (t_skip_lob_whitespace t) as [[[c s0] t1]| | |]; auto.
+  assert (Hk : ni (tdo _ <- with_fuel (fun f => skip_blob_loop f c); t_expect (fun c0 => c0 =? c_rbrace)) t1).
+  { apply ni_bind; [apply nonincr_with_fuel; intros; apply skip_blob_loop_progress; assumption|].
+    intros; apply nonincr_expect. }
+  unfold ni in Hk. match goal with |- match ?k t1 with _ => _ end => destruct (k t1) as [[u t2]| | |] end; auto. lia.
+Qed.
+Lemma read_blob_loop_progress : forall fuel w t, (t_rem t < fuel)%nat -> ni (read_blob_loop fuel w) t.
+Proof.
+  induction fuel as [|f IH]; intros w t Hf; [lia|]. cbn [read_blob_loop].
+  unfold ni, mbind. pose proof (lob_whitespace_hand t) as H.
+  destruct (t_skip_lob_whitespace t) as [[[c2 s2] t1]| | |]; auto.
+  destruct (c2 =? -1) eqn:C; [exact I|].
+  assert (W : wt c2 = 1%nat) by (unfold wt; rewrite C; reflexivity).
+  destruct (c2 =? c_rbrace); [unfold ret; lia|].
+  specialize (IH (byte_of c2 :: w) t1 ltac:(lia)). unfold ni in IH.
+  destruct (read_blob_loop f (byte_of c2 :: w) t1) as [[u t2]| | |]; auto. lia.
+Qed.
+
+(* skipContainerHelper: nested containers, strings, symbols, lobs and comments inside; never out of fuel *)
+Lemma skip_container_progress : forall fuel term t, (t_rem t < fuel)%nat -> ni (skip_container_helper fuel term) t.
+Proof.
+  induction fuel as [|f IH]; intros term t Hf; [lia|]. cbn [skip_container_helper].
+  unfold ni, mbind at 1. pose proof (skip_whitespace_hand t) as H.
+  destruct (t_skip_whitespace t) as [[[c s0] t1]| | |]; auto.
+  destruct (c =? -1) eqn:C; [exact I|].
+  assert (W : wt c = 1%nat) by (unfold wt; rewrite C; reflexivity).
+  assert (Hf1 : (t_rem t1 < f)%nat) by lia.
+  (* every branch: something that does not give characters back, then the loop again *)
+  assert (Hthen : forall (m : M unit), ni m t1 -> ni (tdo _ <- m; skip_container_helper f term) t1).
+  { intros m Hm. apply ni_bind; [exact Hm|]. intros u t2 E2. unfold ni in Hm. rewrite E2 in Hm. apply IH. lia. }
+  assert (Hgoal : forall k : M unit, ni k t1 ->
+            match k t1 with Ok (_, t') => (t_rem t' <= t_rem t)%nat | OutOfFuel => False | _ => True end).
+  { intros k Hk. unfold ni in Hk. destruct (k t1) as [[u t2]| | |]; auto. lia. }
+  destruct (c =? term); [unfold ret; lia|].
+  destruct (c =? c_dquote); [apply Hgoal, Hthen, nonincr_skip_string_helper|].
+  destruct (c =? c_quote).
+  { apply Hgoal. apply ni_bind; [apply nonincr_is_triple_quote|]. intros ok t2 E2.
+    pose proof (nonincr_is_triple_quote t1) as H2. unfold ni in H2. rewrite E2 in H2.
+    apply ni_bind; [destruct ok; [apply nonincr_skip_long_string_helper|apply nonincr_skip_symbol_quoted_helper]|].
+    intros u t3 E3.
+    assert (H3 : (t_rem t3 <= t_rem t2)%nat).
+    { destruct ok; [pose proof (nonincr_skip_long_string_helper HSkipComments t2) as K|pose proof (nonincr_skip_symbol_quoted_helper t2) as K];
+        unfold ni in K; rewrite E3 in K; exact K. }
+    apply IH. lia. }
+  destruct (c =? c_lparen); [apply Hgoal, Hthen, IH, Hf1|].
+  destruct (c =? c_lbracket); [apply Hgoal, Hthen, IH, Hf1|].
+  destruct (c =? c_lbrace); [|apply Hgoal, IH, Hf1].
+  apply Hgoal. apply ni_bind; [apply nonincr_peek|]. intros c2 t2 E2.
+  pose proof (nonincr_peek t1) as H2. unfold ni in H2. rewrite E2 in H2.
+  assert (Hm : forall m : M unit, ni m t2 -> ni (tdo _ <- m; skip_container_helper f term) t2).
+  { intros m Hm. apply ni_bind; [exact Hm|]. intros u t3 E3. unfold ni in Hm. rewrite E3 in Hm. apply IH. lia. }
+  apply Hm. destruct (c2 =? c_lbrace).
+  - apply ni_bind; [apply nonincr_read|]. intros c3 t3 E3. apply nonincr_skip_blob_helper.
+  - destruct (c2 =? c_rbrace).
+    + apply ni_bind; [apply nonincr_read|]. intros; apply ni_ret.
+    + apply IH. lia.
+Qed.
+Lemma skip_container_contents_progress c t : t_skip_container_contents c t <> OutOfFuel.
+Proof.
+  pose proof (nonincr_with_fuel (fun f => skip_container_helper f (term_of c))
+                (fun f t0 H => skip_container_progress f (term_of c) t0 H) t) as H.
+  unfold ni in H. unfold t_skip_container_contents, t_skip_container_helper. intros E. rewrite E in H. exact H.
+Qed.
+Lemma read_string_progress t : read_string t <> OutOfFuel.
+Proof.
+  pose proof (nonincr_with_fuel (fun f => read_string_loop f []) (fun f t0 H => string_loop_progress f [] t0 H) t) as H.
+  unfold ni in H. unfold read_string. intros E. rewrite E in H. exact H.
+Qed.
+Lemma read_long_string_progress t : read_long_string t <> OutOfFuel.
+Proof.
+  pose proof (nonincr_with_fuel (fun f => read_long_string_loop f []) (fun f t0 H => long_string_loop_progress f [] t0 H) t) as H.
+  unfold ni in H. unfold read_long_string. intros E. rewrite E in H. exact H.
+Qed.
+Lemma read_quoted_symbol_progress t : read_quoted_symbol t <> OutOfFuel.
+Proof.
+  pose proof (nonincr_with_fuel (fun f => read_quoted_symbol_loop f []) (fun f t0 H => quoted_symbol_loop_progress f [] t0 H) t) as H.
+  unfold ni in H. unfold read_quoted_symbol. intros E. rewrite E in H. exact H.
+Qed.
+Lemma read_clob_progress t : read_clob t <> OutOfFuel /\ read_long_clob t <> OutOfFuel.
+Proof.
+  split.
+  - pose proof (nonincr_with_fuel (fun f => read_clob_loop f []) (fun f t0 H => clob_loop_progress f [] t0 H) t) as H.
+    unfold ni in H. unfold read_clob. intros E. rewrite E in H. exact H.
+  - pose proof (nonincr_with_fuel (fun f => read_long_clob_loop f []) (fun f t0 H => long_clob_loop_progress f [] t0 H) t) as H.
+    unfold ni in H. unfold read_long_clob. intros E. rewrite E in H. exact H.
 Qed.
